@@ -1,6 +1,7 @@
 package substitution
 
 import (
+	"errors"
 	"regexp"
 
 	vf "github.com/ozontech/file.d/zzverif"
@@ -97,4 +98,94 @@ func VerifNewTrimFilter(mode int, cutset string) FieldFilter {
 
 func VerifNewTrimToFilter(mode int, cutset string) FieldFilter {
 	return &TrimToFilter{mode: trimMode(mode), cutset: []byte(cutset)}
+}
+
+// replaces encoding/json.Unmarshal for the argument shapes a filter specification uses
+// (a quoted string without escapes, an integer, a list of integers, a bool); reflection is not encoded
+func verifStubUnmarshal(data []byte, v any) error {
+	s := string(data)
+	atoi := func(t string) (int, bool) {
+		neg := false
+		if len(t) > 0 && t[0] == '-' {
+			neg, t = true, t[1:]
+		}
+		if len(t) == 0 {
+			return 0, false
+		}
+		n := 0
+		for i := 0; i < len(t); i++ {
+			if t[i] < '0' || t[i] > '9' {
+				return 0, false
+			}
+			n = n*10 + int(t[i]-'0')
+		}
+		if neg {
+			n = -n
+		}
+		return n, true
+	}
+	switch p := v.(type) {
+	case *string:
+		if len(s) < 2 || s[0] != '"' || s[len(s)-1] != '"' {
+			return errVerifJSON
+		}
+		*p = s[1 : len(s)-1]
+	case *int:
+		n, ok := atoi(s)
+		if !ok {
+			return errVerifJSON
+		}
+		*p = n
+	case *bool:
+		*p = s == "true"
+	case *[]int:
+		if len(s) < 2 || s[0] != '[' || s[len(s)-1] != ']' {
+			return errVerifJSON
+		}
+		*p = nil
+		cur := ""
+		for i := 1; i < len(s); i++ {
+			if s[i] == ',' || s[i] == ']' {
+				if cur != "" {
+					n, ok := atoi(cur)
+					if !ok {
+						return errVerifJSON
+					}
+					*p = append(*p, n)
+				}
+				cur = ""
+			} else if s[i] != ' ' {
+				cur += string(s[i])
+			}
+		}
+	default:
+		return errVerifJSON
+	}
+	return nil
+}
+
+var errVerifJSON = errors.New("verif: not the expected JSON shape")
+
+// C13 (modify action): a regex filter built by the real specification parser from every group list its
+// validation lets through (including lists with group 0 next to other numbers) never indexes outside
+// the match when it is applied.
+func VerifH_C13_regexFilterFromSpec() {
+	// the regexp has two groups; these lists pass cfg.VerifyGroupNumbers as it is written
+	lists := []string{"[1]", "[2]", "[1,2]", "[0]", "[0,1]", "[1,0]", "[0,5]", "[2,0]"}
+	spec := `re("(a)(b)?",-1,` + lists[vf.Choose("groups", len(lists))] + `,"|")`
+	f, _, err := parseRegexFilter(spec, 0, nil)
+	if err != nil {
+		vf.Fail("specification-accepted")
+		return
+	}
+	n := 1 + vf.Choose("len", vf.Param("N", 3))
+	src := vf.Bytes("src", n)
+	verifSrcLen = n
+	out := f.Apply(src, append([]byte(nil), src...))
+	if vf.Param("twin", 0) == 1 {
+		vf.Assert(len(out) > 2*n+8, "twin")
+		return
+	}
+	vf.Assert(len(out) <= 2*n+8, "filter-output-bounded")
+	vf.Reach("applied")
 }
